@@ -405,7 +405,6 @@ func (c *checker) one(in string, maxW int) {
 	}
 }
 
-
 func main() {
 	r := ev.New("C13", "exploration",
 		"every string of cells over Σ6={a,b,space,newline,styled a,styled space} up to the length bound and over "+
